@@ -11,7 +11,8 @@ pub fn prop() -> HistProp {
     let mut rc = RunCfg::new(&[Aspect::Fsck, Aspect::Panic, Aspect::Budget]);
     rc.flush_each = true;
     rc.known.partial_create_nospace = crate::run::known_active("C03", "partial-create-out-of-space");
-    let gc = GenCfg::mixed();
+    let mut gc = GenCfg::mixed();
+    gc.populate_pct = 10;
     HistProp {
         id: "C03",
         level: "exploration",
